@@ -74,9 +74,9 @@ impl Srv {
                 let so = std::fs::read_to_string(&stdout_path).unwrap_or_default();
                 so.find("Setting up http://")
                     .and_then(|i| so[i + 18..].find("...").map(|j| so[i + 18..i + 18 + j].to_string()))
-                    .and_then(|a| a.parse().ok())
-                    .into_iter()
-                    .collect()
+                    // the announced host may be a name ("localhost"): resolve it the way a client would
+                    .and_then(|a| { use std::net::ToSocketAddrs; a.to_socket_addrs().ok().map(|it| it.collect::<Vec<SocketAddr>>()) })
+                    .unwrap_or_default()
             } else {
                 vec![]
             };
